@@ -22,7 +22,12 @@ def _run(args):
     rng = random.Random(seed)
     cfg = cp.random_cfg(rng)
     if kind == "free":
-        tr = cp.run_history(cfg, cp.random_free_history(rng, n), tokens=False)
+        top = cp.FREE_TOP if rng.random() < 0.5 else None
+        if top:
+            cfg["top"] = top
+            if rng.random() < 0.3:
+                cfg["ref"] = (rng.choice([3, 4, 5]), 6)   # a six-flavour reference below the top matching scale
+        tr = cp.run_history(cfg, cp.random_free_history(rng, n, top), tokens=False)
         tr["qed"] = False
         return tr
     if kind == "tok":
